@@ -114,6 +114,19 @@ func genConc(prop string, seed uint64, run int, p concProfile, av avoid) *Case {
 			nStable = len(cand)
 		}
 		pf.Survivors = append(pf.Survivors, cand[:nStable]...)
+		if er := NewRng(seed, uint64(run), 97); blocks > 1 && er.Chance(0.12) {
+			// unusual layout: the leading block is completely empty (own PRNG stream)
+			var kept []uint32
+			for _, o := range pf.Survivors {
+				if o>>14 != 0 {
+					kept = append(kept, o)
+				}
+			}
+			if len(kept) > 0 {
+				pf.Survivors = kept
+				nStable = len(kept)
+			}
+		}
 		nf := 0.25
 		if p.nearlyFull > 0 {
 			nf = p.nearlyFull
